@@ -375,6 +375,20 @@ pub fn run(ctx: &mut Ctx) {
         }
     }
 
+    // Phase 0b: every \uXXXX escape inside a string argument and a description, through every
+    // entry point (the compiler's conversions decode the string).
+    for cp in 0u32..=0xFFFF {
+        if ctx.mine(cp as u64) {
+            let c = Case {
+                text: format!("\"\\u{cp:04X}\" type T {{ f(a: String = \"\\u{cp:04x}\"): Int }} {{ a(x: \"\\u{cp:04X}\") }}"),
+                token_limit: None,
+                recursion_limit: None,
+            };
+            check_case(ctx, &c, false);
+            ctx.class("source", "unicode_escape_sweep");
+        }
+    }
+
     // Phase 1: nesting families at depths around every limit constant.
     let depths: &[usize] = if ctx.quick() {
         &[0, 1, 2, 31, 32, 33, 99, 100, 101, 127, 128, 129, 499, 500, 501, 600, 2000]
